@@ -5,5 +5,16 @@ Node(s) == <<hnd[s].k, hnd[s].b, Cardinality(Children(s))>>
 Roots == {s \in Slots : hnd[s].k # "none" /\ hnd[s].ln = 0}
 RootBag == LET N == {Node(s) : s \in Roots} IN [n \in N |-> Cardinality({s \in Roots : Node(s) = n})]
 CanonView == <<blk, RootBag>>
+\* An action that leaves the specification's state unchanged (a refusal, a propagated panic) may still have
+\* touched hidden implementation state. `quiet` remembers, for one step, that the last action was such a
+\* no-op and which one; it is part of the VIEW, so the successors of a state are ALSO explored (and exported)
+\* with the no-op as the preceding step of the history. This gives path coverage of length two through
+\* self-loop edges, which plain edge coverage of the state graph does not.
+VARIABLE quiet
+NoOpTag == IF UNCHANGED <<blk, hnd>> /\ (res'.panicked \/ res'.verdict = "no")
+           THEN <<res'.op, res'.panicked, res'.verdict>> ELSE <<>>
+MCSpec == Init /\ quiet = <<>> /\ [][NextLowest /\ quiet' = NoOpTag]_<<vars, quiet>>
+MCView == <<CanonView, quiet>>
+
 Emit == PrintT(<<"BEH", ToJson([h |-> hist', x |-> Proj(blk', hnd', res')])>>)
 =============================================================================
